@@ -29,13 +29,42 @@ def _paths(F, sel, **kw):
     return [p for p in seq.sequences(F, sel, **kw) if p[1] == "ret"]
 
 
+READY = "ABTI_eventual::ready"
+VALUE = "ABTI_eventual::value"
+CNT_LOAD = "_load_size(&ABTI_future::counter)"
+NCOMP = "ABTI_future::num_compartments"
+
+
+def _ev_cond(t):
+    """Canonical labels (independent of local names and of the polarity of the test)."""
+    if t == READY:
+        return "ready"              # ready != FALSE
+    if t == VALUE:
+        return "has-value"
+    return None
+
+
+def _fu_cond(t):
+    if CNT_LOAD in t and NCOMP in t:
+        if "+ 1" in t and "==" in t:
+            return "last"           # counter + 1 == num_compartments
+        if t.endswith("< " + NCOMP) and "+ 1" not in t:
+            return "in-range"       # counter < num_compartments
+        if t.startswith(NCOMP + " < ") and "+ 1" in t:
+            return "overfull"
+    if t == "ABTI_future::p_callback":
+        return "has-cb"
+    if t == "ABTI_future::counter" or "ABTI_future::counter" in t:
+        return "counter:" + t
+    return None
+
+
 def rule_R1(P, rep):
     F = P.fn("ABT_eventual_set", "src/eventual.c")
     ERR = P.macro_int("ABT_ERR_EVENTUAL")
     rep.need(ERR, "ABT_ERR_EVENTUAL not found in abt.h")
     sel = seq.Sel(calls={"memcpy", "ABTI_waitlist_broadcast", "__builtin___memcpy_chk", "__builtin_memcpy"},
-                  fields={"ready", "value"}, conds=lambda t: t in ("ready == 0", "p_eventual->value"),
-                  decls={"ready"})
+                  fields={"ready", "value"}, conds=_ev_cond, reads={READY}, canon=True)
     ps = _paths(F, sel)
     kinds = set()
     for toks, kind, rv, rtxt in ps:
@@ -49,12 +78,13 @@ def rule_R1(P, rep):
             rep.ob("R1", "eventual_set early error path -> %s" % rtxt, not why, "; ".join(why), loc=F.file,
                    site="eventual_set/early/%s" % rtxt)
             continue
-        rd = [i for i, t in enumerate(toks) if t[0] == "decl" and t[1] == "ready"]
-        if not rd or not held_at(toks, EL, rd[0]) or rd and toks[rd[0]][2] != "p_eventual->ready":
+        rd = idx(toks, lambda t: t[0] == "rd" and t[1] == READY)
+        tests = idx(toks, lambda t: t[0] == "if" and t[1] == "ready")
+        if not rd or not tests or any(not held_at(toks, EL, i) for i in rd) or rd[0] > tests[0]:
             why.append("`ready` not read under the lock")
-        if has_if(toks, "ready == 0", True):
+        if has_if(toks, "ready", False):
             k = "first-set"
-            sets = [i for i, t in enumerate(toks) if t[0] == "st" and t[1] == "ABTI_eventual::ready"]
+            sets = [i for i, t in enumerate(toks) if t[0] == "st" and t[1] == READY]
             bc = idx(toks, is_call("ABTI_waitlist_broadcast"))
             cp = idx(toks, lambda t: t[0] == "call" and "memcpy" in t[1])
             rl = idx(toks, is_rel(EL))
@@ -65,7 +95,7 @@ def rule_R1(P, rep):
                     why.append("order must be ready=TRUE < broadcast < release")
                 if cp and not cp[0] < sets[0]:
                     why.append("value copied after `ready` was set")
-                if has_if(toks, "p_eventual->value", True) and not cp:
+                if has_if(toks, "has-value", True) and not cp:
                     why.append("value buffer present but not copied")
                 if "&ABTI_eventual::waitlist" not in toks[bc[0]][2]:
                     why.append("broadcast on %s" % (toks[bc[0]][2],))
@@ -81,15 +111,14 @@ def rule_R1(P, rep):
             why.append("returns holding the lock")
         kinds.add(k)
         rep.ob("R1", "eventual_set %s [%s]" % (k, show(toks)), not why, "; ".join(why), loc=F.file,
-               site="eventual_set/%s/%s" % (k, has_if(toks, "p_eventual->value", True)))
+               site="eventual_set/%s/%s" % (k, has_if(toks, "has-value", True)))
     rep.ob("R1", "eventual_set has first-set and already-ready arms", kinds == {"first-set", "already-ready"},
            str(kinds), loc=F.file, site="eventual_set/kinds")
     rep.min_instances("R1", 4)
 
 
 def rule_R2(P, rep):
-    sel = seq.Sel(calls={"ABTI_waitlist_broadcast"}, fields={"ready"},
-                  conds=lambda t: "p_eventual->ready" in t)
+    sel = seq.Sel(calls={"ABTI_waitlist_broadcast"}, fields={"ready"}, conds=_ev_cond, reads={READY}, canon=True)
     # wait
     F = P.fn("ABT_eventual_wait", "src/eventual.c")
     kinds = set()
@@ -97,11 +126,12 @@ def rule_R2(P, rep):
         if rv != 0:
             continue
         why = []
-        tests = [i for i, t in enumerate(toks) if t[0] == "if" and "p_eventual->ready" in t[1]]
-        if len(tests) != 1 or not held_at(toks, EL, tests[0]):
+        tests = [i for i, t in enumerate(toks) if t[0] == "if" and t[1] == "ready"]
+        rd = idx(toks, lambda t: t[0] == "rd" and t[1] == READY)
+        if len(tests) != 1 or not rd or any(not held_at(toks, EL, i) for i in rd):
             why.append("`ready` must be tested exactly once under the lock")
         else:
-            notready = (toks[tests[0]][1] == "p_eventual->ready == 0") == toks[tests[0]][2]
+            notready = toks[tests[0]][2] is False
             xf = idx(toks, is_xfer(EL))
             if notready:
                 kinds.add("not-ready")
@@ -123,8 +153,7 @@ def rule_R2(P, rep):
         F = P.fn(fn, "src/eventual.c")
         n = 0
         for toks, kind, rv, rtxt in _paths(F, sel):
-            acc = [i for i, t in enumerate(toks) if (t[0] == "if" and "p_eventual->ready" in t[1]) or
-                   (t[0] == "st" and t[1] == "ABTI_eventual::ready")]
+            acc = [i for i, t in enumerate(toks) if (t[0] == "rd" and t[1] == READY) or (t[0] == "st" and t[1] == READY)]
             if rv != 0:
                 continue
             n += 1
@@ -146,8 +175,8 @@ def rule_R3(P, rep):
     F = P.fn("ABT_future_set", "src/futures.c")
     ERR = P.macro_int("ABT_ERR_FUTURE")
     rep.need(ERR, "ABT_ERR_FUTURE not found in abt.h")
-    sel = seq.Sel(calls={"ABTI_waitlist_broadcast"}, fields={"counter", "array"},
-                  conds=lambda t: "counter" in t or "p_callback" in t, indirect=True, decls={"counter", "num_compartments"})
+    sel = seq.Sel(calls={"ABTI_waitlist_broadcast"}, fields={"counter", "array"}, conds=_fu_cond, indirect=True,
+                  reads={"ABTI_future::counter"}, canon=True)
     ps = _paths(F, sel)
     kinds = set()
     for toks, kind, rv, rtxt in ps:
@@ -158,10 +187,10 @@ def rule_R3(P, rep):
             rep.ob("R3", "future_set early error path -> %s" % rtxt, not why, "; ".join(why), loc=F.file,
                    site="future_set/early/%s" % rtxt)
             continue
-        rd = [i for i, t in enumerate(toks) if t[0] == "decl" and t[1] == "counter"]
-        if not rd or not held_at(toks, FL, rd[0]):
+        rd = idx(toks, lambda t: t[0] == "rd" and t[1] == "ABTI_future::counter")
+        if not rd or any(not held_at(toks, FL, i) for i in rd):
             why.append("counter not read under the lock")
-        full = has_if(toks, "counter >= num_compartments", True)
+        full = has_if(toks, "in-range", False)
         stores = [i for i, t in enumerate(toks) if t[0] == "st" and t[1] == "ABTI_future::array"]
         ast = [i for i, t in enumerate(toks) if t[0] == "ast" and t[2] == "ABTI_future::counter"]
         cb = [i for i, t in enumerate(toks) if t[0] == "icall"]
@@ -173,10 +202,12 @@ def rule_R3(P, rep):
             if rv != ERR:
                 why.append("returns %s, expected ABT_ERR_FUTURE" % rv)
         else:
-            last = has_if(toks, "counter == num_compartments", True)
+            last = has_if(toks, "last", True)
             k = "last" if last else "partial"
-            if not has_if(toks, "counter >= num_compartments", False):
+            if not has_if(toks, "in-range", True):
                 why.append("range test missing before the store")
+            if any(t[0] == "if" and t[1].startswith("counter:") for t in toks):
+                why.append("unrecognised test of the counter: %s" % [t[1] for t in toks if t[0] == "if" and t[1].startswith("counter:")][0])
             if len(stores) != 1 or len(ast) != 1:
                 why.append("must store one compartment and publish the counter once")
             else:
@@ -184,12 +215,13 @@ def rule_R3(P, rep):
                     why.append("counter not release-stored")
                 if not stores[0] < ast[0]:
                     why.append("counter published before the compartment is stored")
-                if toks[ast[0]][3] != "counter":
-                    why.append("publishes %s" % toks[ast[0]][3])
+                pv = str(toks[ast[0]][3])
+                if not (CNT_LOAD in pv and pv.endswith("+ 1")):
+                    why.append("publishes %s" % pv)
             if len(cb) > 1:
                 why.append("callback invoked %d times" % len(cb))
             if last:
-                has_cb = has_if(toks, "p_future->p_callback != (void *)0", True)
+                has_cb = has_if(toks, "has-cb", True)
                 if has_cb and len(cb) != 1:
                     why.append("callback registered but not invoked on the last set")
                 if cb and ast and not cb[0] < ast[0]:
@@ -213,7 +245,7 @@ def rule_R3(P, rep):
             why.append("returns holding the lock")
         kinds.add(k)
         rep.ob("R3", "future_set %s [%s]" % (k, show(toks)[:320]), not why, "; ".join(why), loc=F.file,
-               site="future_set/%s/%s" % (k, has_if(toks, "p_future->p_callback != (void *)0", True)))
+               site="future_set/%s/%s" % (k, has_if(toks, "has-cb", True)))
     rep.ob("R3", "future_set has rejected, partial and last arms", kinds == {"rejected", "partial", "last"}, str(kinds),
            loc=F.file, site="future_set/kinds")
     rep.min_instances("R3", 5)
@@ -221,14 +253,15 @@ def rule_R3(P, rep):
 
 def rule_R4(P, rep):
     F = P.fn("ABT_future_wait", "src/futures.c")
-    sel = seq.Sel(conds=lambda t: "counter" in t)
+    sel = seq.Sel(conds=_fu_cond, reads={"ABTI_future::counter"}, canon=True)
     kinds = set()
     for toks, kind, rv, rtxt in _paths(F, sel):
         if rv != 0:
             continue
         why = []
-        tests = [i for i, t in enumerate(toks) if t[0] == "if" and "p_future->counter" in t[1]]
-        if len(tests) != 1 or not held_at(toks, FL, tests[0]) or "< p_future->num_compartments" not in toks[tests[0]][1]:
+        tests = [i for i, t in enumerate(toks) if t[0] == "if" and (t[1] == "in-range" or t[1].startswith("counter:"))]
+        rd = idx(toks, lambda t: t[0] == "rd" and t[1] == "ABTI_future::counter")
+        if len(tests) != 1 or toks[tests[0]][1] != "in-range" or not rd or any(not held_at(toks, FL, i) for i in rd):
             why.append("counter must be compared with num_compartments once under the lock")
         else:
             xf = idx(toks, is_xfer(FL))
